@@ -16,7 +16,7 @@ def run(rep):
     q = rep.tier == 'quick'
     fw.standin(rep, 's_init.py', ['run'], 'ground check: two engines share no dict object; clear() creates fresh ones', 'single configuration')
     if os.path.exists(os.path.join(fw.VERIF, 'standin', 's_c04.py')):
-        fw.standin(rep, 's_c04.py', ['run', rep.seed, 200 if q else 3000],
+        fw.standin(rep, 's_c04.py', ['run', rep.seed, 800 if q else 5000],
                    'two engines: histories x interleavings (incl. next() on suspended queries, two threads) vs each engine alone',
                    'histories of <= 6 operations per engine')
     fw.standin(rep, 's_share.py', ['run', rep.seed, 760],
